@@ -709,7 +709,7 @@ func main() {
 	runner.Main(runner.Config{
 		Property:  "C12",
 		Technique: "all call sequences/permutations up to a depth, single-threaded under the controlled scheduler with every sync.Pool.Get answer enumerated (deviation-bounded); fresh-state oracle + aliasing re-reads",
-		Rule: "27 heterogeneous calls (calls rejected before validation although they carry rules, one rule-map object whose content differs from call to call, long unsorted slices under unique, datetime with custom and default separators, calls rejected before validation (unsupported / nil source), two rule sets registered in one call, struct with default tag / tag b / per-call rules / per-call functions, group rules over a slice, Var with quoted rules, Map, Url, a call returning before validation, splitter, builder+extractor); " +
+		Rule: "40 heterogeneous calls + 9 in a space of their own (file / dir rules on one path that is a file, a directory or absent at the time of the call; the explanation extractor on messages without explanation; the clause builders), every sequence <=3 (thorough 4) over these and five main calls; main menu: (calls rejected before validation although they carry rules, one rule-map object whose content differs from call to call, long unsorted slices under unique, datetime with custom and default separators, calls rejected before validation (unsupported / nil source), two rule sets registered in one call, struct with default tag / tag b / per-call rules / per-call functions, group rules over a slice, Var with quoted rules, Map, Url, a call returning before validation, splitter, builder+extractor); " +
 			"all sequences of length<=3 (thorough: <=4), all sequences of length 3 again on a one-entry type cache after 0..5 evictions, and all permutations of 4-subsets; per sequence every Pool.Get answer (top / other pooled object / New) within the deviation bound; per call: result = fresh-state result (= model for struct calls), " +
 			"arguments deep-equal to a fresh copy, every previously handed-out error string / rule token re-compared with its detached copy; transitions = scheduling steps; states = distinct result vectors; non-trivial = sequences of >=2 calls",
 		Assumptions: []string{"pool answers are owned by the scheduler shim (sync.Pool replaced through the build overlay)", "global type cache fresh per execution (delegating CacheEr)"},
